@@ -36,7 +36,7 @@ inductive Drawn (α : Type) where
   | ok (a : α)
   | raised (e : PyErr)
   | starved
-  deriving Repr
+  deriving Repr, DecidableEq
 
 /-- The builder object after `__init__` (bounds after the `or` defaults). -/
 structure Cfg where
@@ -441,7 +441,7 @@ inductive InitResult where
   /-- the supplied rounds are used up and the loop is still running (state `bs`) -/
   | running (bs : Blocks)
   | starved
-  deriving Repr
+  deriving Repr, DecidableEq
 
 def initialLoop (cfg : Cfg) : List Round → Blocks → InitResult
   | [], bs => if isMet cfg bs then .done bs else .running bs
